@@ -151,6 +151,10 @@ def intersect_stream(ctx, n):
                 b = np.array([rng.randint(-3, 3) for _ in range(3)] + [rng.choice([1, 0])], dtype=float)
                 if np.linalg.matrix_rank(np.array([a, b])) < 2:
                     continue
+                if a @ A @ a == 0 and b @ A @ b == 0 and a @ A @ b == 0:
+                    # the line is a ruling of the quadric (every point of it lies on the quadric): there are no "two common points"
+                    ctx.count("generic-line:3d:skipped-ruling")
+                    continue
                 L = call_impl(lambda: line_through(g, a, b))
             if L[0] != "ok":
                 continue
